@@ -233,13 +233,16 @@ def execIfApproved (sub : Sub) (epoch : Int) (s : State) (id : Nat) (txn : Tx)
           | a :: _ => (a.sendOk, a.children)
           | [] => (true, [])
         let r := sub s2 (.node m script.1 script.2)
-        match sendOk, r.out with
-        | true, .ok (s3, _) => ⟨.ok (s3, { txId := id, applied := true, codeOk := true }), ev :: r.trace⟩
-        | _, _ => ⟨.ok (s1, { txId := id, applied := true, codeOk := false }), ev :: r.trace⟩
+        -- the callee's effects are kept only when it returned ok (and was not forced to abort)
+        let fin : State × Bool :=
+          match r.out with
+          | .ok (s3, _) => if sendOk then (s3, true) else (s1, false)
+          | .error _ => (s1, false)
+        ⟨.ok (fin.1, { txId := id, applied := true, codeOk := fin.2 }), ev :: r.trace⟩
       else
         let n := runChildren sub s.self s2 children
-        if sendOk then ⟨.ok (n.1, { txId := id, applied := true, codeOk := true }), ev :: n.2⟩
-        else ⟨.ok (s1, { txId := id, applied := true, codeOk := false }), ev :: n.2⟩
+        ⟨.ok (if sendOk then n.1 else s1, { txId := id, applied := true, codeOk := sendOk }),
+         ev :: n.2⟩
   else ⟨.ok (s, { txId := id, applied := false, codeOk := true }), []⟩
 
 /-- `Actor::approve_transaction(rt, tx_id, txn)`. -/
